@@ -389,6 +389,8 @@ def exec_states(item):
     mism, counts = [], {}
     ncalls = nontriv = nstates = 0
     for block in _blocks(text):
+        if 'kind = "root"' in block or 'kind = "chunk"' in block:
+            continue
         st = {k: to_py(v) for k, v in parse_state(block).items()}
         kind, inp, exp = st["kind"], st["inp"], st["exp"]
         nstates += 1
@@ -861,6 +863,7 @@ def replay(record):
         return {"error": "scale cases are replayed through ./check (they need the 8 MiB stack child)",
                 "record": record}
     if kind == "event":
+        # re-execute the logged call and compare with the value TLC printed for it
         e, subj = record["call"], record["subject"]
         if subj["op"] == "load":
             inp = {"rows": subj["rows"], "data": subj["data"], "idx": e.get("idx", [])}
@@ -869,8 +872,13 @@ def replay(record):
             inp = {"n": subj["n"], "E": subj["E"]}
             view = [e["op"], "bonds"] + ([e["root"]] if "root" in e else [])
         obs = observe(view, inp, False)
-        return {"view": view, "inp": inp, "logged": e, "observed_now": obs, "spec_expected": record["expected"],
-                "mismatch": True}
+        exp = record.get("expected") or []
+        if len(exp) == 2 and exp[0] in ("ok", "Rejected", "any"):
+            bad = not agree(view, {"oc": exp[0], "out": exp[1]}, obs)
+        else:
+            bad = True   # e.g. WrongSegmentCount: the implementation's segment count is wrong
+        return {"view": view, "inp": inp, "logged": e, "observed_now": obs, "spec_expected": exp,
+                "mismatch": bad}
     if kind == "crash":
         return {"error": "crash records are replayed through ./check", "record": record, "crash": True}
     return {"error": "unknown record", "record": record}
@@ -878,6 +886,6 @@ def replay(record):
 
 MANIFEST = {
     "technique": "TLA+ specification of residue/chain segmentation and of bond-graph components (specs/C17), implementation-shaped definitions proved equal to per-atom definitions by TLC on all bounded inputs; every TLC state (input, expected) executed against the real functions; graphs scaled to 10^5 atoms through a model-checked subdivision lemma; recorded sessions re-computed by TLC",
-    "level_text": "TLC enumerates all annotation sequences up to length 3 over 16 rows (length 4 in the thorough tier) plus up to length 4-6 over rows differing in exactly one field, all index arrays up to length 2-3 with out-of-range entries, all bond graphs on <=5 (6) atoms; for each it checks that change-mask/searchsorted/slice/repeat/DFS-shaped definitions equal the atom-by-atom definitions, then every such state is run against get_residue_*/get_chain_*/residue_iter/chain_iter/apply_*/spread_*/get_segment_*/get_molecule_*/molecule_iter/find_connected on AtomArray and AtomArrayStack. Graphs are re-run with each bond subdivided into paths of 10..50,000 atoms under an 8 MiB stack. Longer arrays (<=14 atoms, 4 chains, negative ids) and random graphs (<=9 atoms) are covered by recorded sessions validated by TLC.",
+    "level_text": "TLC enumerates all annotation sequences up to length 3 over 16 rows (length 4 in the thorough tier) plus up to length 4 (5) over rows differing in exactly one field, all index arrays up to length 2 (3) with out-of-range entries, all bond graphs on <=5 (6) atoms; for each it checks that change-mask/searchsorted/slice/repeat/DFS-shaped definitions equal the atom-by-atom definitions, then every such state is run against get_residue_*/get_chain_*/residue_iter/chain_iter/apply_*/spread_*/get_segment_*/get_molecule_*/molecule_iter/find_connected on AtomArray and AtomArrayStack. Graphs are re-run with each bond subdivided into paths of 10..50,000 atoms under an 8 MiB stack. Longer arrays (<=14 atoms, 4 chains, negative ids) and random graphs (<=9 atoms) are covered by recorded sessions validated by TLC.",
     "level_note": "Bounded model checking plus conformance, not proof. Reducing functions are nine fixed functions (integer, float, bool and array results) on integer data; float data are not used. For empty arrays only starts/count/names/iteration are compared. The order of the molecule list is not demanded. Large graphs are checked only in the subdivided-small-graph family and their expectation rests on a lemma model-checked for L<=2. Crashes of the recursive find_connected on components of tens of thousands of atoms are a listed known finding (bonds.pyx cannot be rebuilt here).",
 }
